@@ -458,6 +458,12 @@ func parseBlock(c *casketfile.Dispenser, u *staticUpstream, hasSrv bool) error {
 		if err != nil {
 			return err
 		}
+		if dur <= 0 {
+			// (the worker's ticker panics on such an interval, in a
+			// goroutine of its own: not a failed load but the end of the
+			// process, and of every site of the configuration running)
+			return c.Err("health_check_interval must be positive")
+		}
 		u.HealthCheck.Interval = dur
 	case "health_check_timeout":
 		var interval string
